@@ -12,6 +12,8 @@ import Relsad.Model.Control
 import Relsad.Lemmas.ControlL
 import Relsad.Props.C05
 import Relsad.Lemmas.ControlNfL
+import Relsad.Lemmas.ControlCalmL
+import Relsad.Lemmas.ControlLiveL
 
 namespace Relsad.C14
 open Relsad.Control
@@ -339,5 +341,189 @@ theorem failed_line_flag_never_stale_devices (C : Cfg) (hC : wfB C = true) (hC2 
     | spread s S _ ih => exact ih.spread S
     | stepD s dt cd swF _ _ ih => exact ih.afterStepD w w2 dt cd swF
   exact nf.why n hn hflag
+
+open Relsad.Control in
+private theorem getD_set_nil (l : List (List Nat)) (n : Nat) (h : l.getD n [] = []) : (l.set n []).getD n [] = [] := by
+  by_cases hn : n < l.length
+  · simp [List.getD_eq_getElem?_getD, hn]
+  · rw [List.set_eq_of_length_le (not_lt.mp hn)]; exact h
+
+open Relsad.Control in
+private theorem anyFailed_congr (s r : St) (h : r.failed = s.failed) (ls : List Nat) : anyFailed r ls = anyFailed s ls := by
+  unfold anyFailed; rw [h]
+
+open Relsad.Control in
+/-- the reconnecting half of a line check on sections none of which holds a failed line: no line status, no timer and no
+breaker is touched and nothing is listed as failed afterwards -/
+private theorem reco_quiet (C : Cfg) (n : Nat) (ks : List Nat) (s : St)
+    (hq : ∀ k ∈ ks, anyFailed s (secOf C k).lines = false) (hfs : s.failedSecs.getD n [] = []) :
+    (ks.foldl (recoStep C n) s).failed = s.failed ∧ (ks.foldl (recoStep C n) s).timer = s.timer ∧
+    (ks.foldl (recoStep C n) s).failedSecs.getD n [] = [] := by
+  induction ks generalizing s with
+  | nil => exact ⟨rfl, rfl, hfs⟩
+  | cons a as ih =>
+    simp only [List.foldl_cons]
+    obtain ⟨e1, _, _, e4⟩ := recoStep_fields C n s a
+    have ha := hq a List.mem_cons_self
+    have hfs' : (recoStep C n s a).failedSecs.getD n [] = [] := by
+      rw [e4, ha]; simp only [Bool.false_eq_true, if_false]
+      rw [hfs]; exact getD_set_nil _ _ hfs
+    have r := ih (recoStep C n s a)
+      (fun k hk => by rw [anyFailed_congr s _ e1]; exact hq k (List.mem_cons_of_mem _ hk)) hfs'
+    exact ⟨r.1.trans e1, r.2.1.trans (tm_recoStep C n s a).1, r.2.2⟩
+
+open Relsad.Control in
+private theorem checkLines_quiet (C : Cfg) (s : St) (n : Nat)
+    (hq : ∀ k ∈ (netOf C n).secs, anyFailed s (secOf C k).lines = false) (hfs : s.failedSecs.getD n [] = []) :
+    (checkLinesManually C s n).failed = s.failed ∧ (checkLinesManually C s n).timer = s.timer ∧
+    (checkLinesManually C s n).failedSecs.getD n [] = [] := by
+  rw [checkLinesManually_eq]
+  have h1 : ((netOf C n).secs.filter (fun k => gb s.secConn k)).foldl (flagStep C n) s = s := by
+    apply foldl_fixed
+    intro k hk
+    have := hq k (List.mem_filter.mp hk).1
+    unfold flagStep
+    simp only
+    rw [show C.secs.getD k default = secOf C k from rfl, this]
+    simp
+  rw [h1]
+  exact reco_quiet C n _ s (fun k hk => hq k (List.mem_filter.mp hk).1) hfs
+
+open Relsad.Control in
+/-- **A full- or limited-support microgrid reconnects in the very pass of its control loop in which the sectioning time
+runs out** (whole loop `MicrogridController.run_manual_control_loop`, not only the breaker check): with the breaker
+open, the own timer running out in this pass (`tick t dt ≤ 0`), nothing left of the parent's time, no failed line in
+any section of the microgrid, nothing listed as failed and the connecting line healthy, the breaker is closed when the
+pass ends.  Together with `C16.manual_mg_loop_waits_for_sectioning_time` (the breaker is left alone while more than one
+step of the time remains) this is "as soon as the sectioning time has elapsed", for every state and every step. -/
+theorem support_reconnects_when_time_runs_out (C : Cfg) (s : St) (n : Nat) (dt : ℚ)
+    (hn : n < s.timer.length) (hcb : (C.nets.getD n default).cb < s.cbOpen.length)
+    (hopen : gb s.cbOpen (C.nets.getD n default).cb = true)
+    (hmode : (C.nets.getD n default).mode ≠ some .survival)
+    (ht : tick (gr s.timer n) dt ≤ 0) (hp : gr s.pTimer n ≤ 0)
+    (hq : ∀ k ∈ (netOf C n).secs, anyFailed s (secOf C k).lines = false)
+    (hfs : s.failedSecs.getD n [] = [])
+    (hline : gb s.failed (C.nets.getD n default).connLine = false) :
+    gb (mgLoop C s n dt).cbOpen (C.nets.getD n default).cb = false := by
+  have hhold : ∀ x : St, survivalHold C x n = false := by
+    intro x; unfold survivalHold; split
+    · rename_i h _; exact absurd h hmode
+    · rfl
+  -- whatever the line check does, the breaker check that follows sees: same line status, same breakers, timer run out,
+  -- nothing listed
+  have key : ∀ x : St, x.failed = s.failed → x.cbOpen = s.cbOpen → gr x.timer n ≤ 0 → x.failedSecs.getD n [] = [] →
+      gb (checkBreakerManually C x n).cbOpen (C.nets.getD n default).cb = false := by
+    intro x hf hc htm hl
+    apply support_reconnects C x n (by rw [hc]; exact hopen) (by rw [hc]; exact hcb) (hhold x) htm
+    · rw [hl]; simp only [List.foldl_nil]; rw [hf]; exact hline
+    · rw [hl]; rfl
+  unfold mgLoop
+  simp only
+  set t2 := (if gr s.pTimer n > tick (gr s.timer n) dt then gr s.pTimer n else tick (gr s.timer n) dt) with ht2
+  have ht2le : t2 ≤ 0 := by rw [ht2]; split_ifs <;> assumption
+  have hg : gr (s.timer.set n t2) n = t2 := gr_set_self _ _ _ hn
+  simp only [hg, hopen, ht2le, decide_true, Bool.and_self, if_true]
+  split_ifs with hck
+  · obtain ⟨q1, q2, q3⟩ := checkLines_quiet C
+      ({ s with timer := s.timer.set n t2, pTimer := s.pTimer.set n (tick (gr s.pTimer n) dt), check := s.check.set n true }) n hq hfs
+    apply key
+    · exact q1
+    · exact checkLinesManually_cbOpen C _ n
+    · show gr (checkLinesManually C _ n).timer n ≤ 0
+      rw [q2]; show gr (s.timer.set n t2) n ≤ 0; rw [hg]; exact ht2le
+    · exact q3
+  · apply key
+    · rfl
+    · rfl
+    · show gr (s.timer.set n t2) n ≤ 0; rw [hg]; exact ht2le
+    · exact hfs
+
+open Relsad.Control in
+/-- Non-vacuity: feeder L0 (breaker 0) - L1 behind a disconnector, a full-support microgrid (line 2, breaker 1) on the
+feeder; sectioning time 1 h, 1 h increments.  One increment after a fault on L1 both breakers are open and the
+microgrid's timer stands at 1 h: the state meets every hypothesis of the theorem, and its control pass closes breaker 1. -/
+example :
+    let C : Cfg :=
+      { lines := [⟨0, some 0, [], 0⟩, ⟨0, none, [0], 1⟩, ⟨1, some 1, [], 2⟩], disconLine := [1], cbLine := [0, 2],
+        secs := [⟨[0], [.breaker 0, .discon 0]⟩, ⟨[1], [.discon 0]⟩, ⟨[2], [.breaker 1]⟩],
+        nets := [⟨0, 0, [0, 1], [0, 1], [1], none, none⟩, ⟨2, 1, [2], [2], [], some .fullSupport, some 0⟩], T := 1 }
+    let s := step C (lineFail C (St.init C) 1 3) 1
+    wfB C = true ∧ 1 < s.timer.length ∧ (C.nets.getD 1 default).cb < s.cbOpen.length ∧
+    gb s.cbOpen (C.nets.getD 1 default).cb = true ∧ (C.nets.getD 1 default).mode ≠ some .survival ∧
+    gr s.timer 1 = 1 ∧ tick (gr s.timer 1) 1 ≤ 0 ∧ gr s.pTimer 1 ≤ 0 ∧
+    (∀ k ∈ (netOf C 1).secs, anyFailed s (secOf C k).lines = false) ∧ s.failedSecs.getD 1 [] = [] ∧
+    gb s.failed (C.nets.getD 1 default).connLine = false ∧
+    gb (mgLoop C s 1 1).cbOpen 1 = false := by
+  intro C s
+  refine ⟨by decide +kernel, by decide +kernel, by decide +kernel, by decide +kernel, by decide +kernel, by decide +kernel,
+    by decide +kernel, by decide +kernel, by decide +kernel, by decide +kernel, by decide +kernel, by decide +kernel⟩
+
+open Relsad.Control in
+private theorem checkSensors_quiet (C : Cfg) (s : St) (n : Nat) (cm : Comm)
+    (hq : ∀ k ∈ (netOf C n).secs, anyFailed s (secOf C k).lines = false) (hfs : s.failedSecs.getD n [] = []) :
+    (checkSensors C s n cm).failed = s.failed ∧ (checkSensors C s n cm).timer = s.timer ∧
+    (checkSensors C s n cm).failedSecs.getD n [] = [] ∧ (checkSensors C s n cm).cbOpen = s.cbOpen := by
+  rw [checkSensors_eq]
+  have h1 : ((netOf C n).secs.filter (fun k => gb s.secConn k)).foldl (flagStepA C n cm) s = s := by
+    apply foldl_fixed
+    intro k hk
+    have := hq k (List.mem_filter.mp hk).1
+    unfold flagStepA
+    simp only
+    rw [show C.secs.getD k default = secOf C k from rfl, this]
+    simp
+  rw [h1]
+  obtain ⟨a, b, c⟩ := reco_quiet C n _ s (fun k hk => hq k (List.mem_filter.mp hk).1) hfs
+  refine ⟨a, b, c, ?_⟩
+  apply cbOpen_foldl_eq
+  intro s' k
+  unfold recoStep
+  simp only
+  split_ifs
+  · rfl
+  · exact secConnectManually_cbOpen C s' k
+
+open Relsad.Control in
+/-- **… and the same under ICT-based control** (`MicrogridController.run_control_loop`), whatever the controller can
+reach in that increment. -/
+theorem support_reconnects_when_time_runs_out_auto (C : Cfg) (s : St) (n : Nat) (dt : ℚ) (cm : Comm)
+    (hn : n < s.timer.length) (hcb : (C.nets.getD n default).cb < s.cbOpen.length)
+    (hopen : gb s.cbOpen (C.nets.getD n default).cb = true)
+    (hmode : (C.nets.getD n default).mode ≠ some .survival)
+    (ht : tick (gr s.timer n) dt ≤ 0) (hp : gr s.pTimer n ≤ 0)
+    (hq : ∀ k ∈ (netOf C n).secs, anyFailed s (secOf C k).lines = false)
+    (hfs : s.failedSecs.getD n [] = [])
+    (hline : gb s.failed (C.nets.getD n default).connLine = false) :
+    gb (mgLoopA C s n dt cm).cbOpen (C.nets.getD n default).cb = false := by
+  have hhold : ∀ x : St, survivalHold C x n = false := by
+    intro x; unfold survivalHold; split
+    · rename_i h _; exact absurd h hmode
+    · rfl
+  have key : ∀ x : St, x.failed = s.failed → x.cbOpen = s.cbOpen → gr x.timer n ≤ 0 → x.failedSecs.getD n [] = [] →
+      gb (checkBreakerManually C x n).cbOpen (C.nets.getD n default).cb = false := by
+    intro x hf hc htm hl
+    apply support_reconnects C x n (by rw [hc]; exact hopen) (by rw [hc]; exact hcb) (hhold x) htm
+    · rw [hl]; simp only [List.foldl_nil]; rw [hf]; exact hline
+    · rw [hl]; rfl
+  unfold mgLoopA
+  simp only
+  set t2 := (if gr s.pTimer n > tick (gr s.timer n) dt then gr s.pTimer n else tick (gr s.timer n) dt) with ht2
+  have ht2le : t2 ≤ 0 := by rw [ht2]; split_ifs <;> assumption
+  have hg : gr (s.timer.set n t2) n = t2 := gr_set_self _ _ _ hn
+  simp only [hg, hopen, ht2le, decide_true, Bool.and_self, if_true]
+  split_ifs with hck
+  · obtain ⟨q1, q2, q3, q4⟩ := checkSensors_quiet C
+      ({ s with timer := s.timer.set n t2, pTimer := s.pTimer.set n (tick (gr s.pTimer n) dt), check := s.check.set n true }) n cm hq hfs
+    apply key
+    · exact q1
+    · exact q4
+    · show gr (checkSensors C _ n cm).timer n ≤ 0
+      rw [q2]; show gr (s.timer.set n t2) n ≤ 0; rw [hg]; exact ht2le
+    · exact q3
+  · apply key
+    · rfl
+    · rfl
+    · show gr (s.timer.set n t2) n ≤ 0; rw [hg]; exact ht2le
+    · exact hfs
 
 end Relsad.C14
